@@ -576,7 +576,7 @@ def m_new_cond(ex, args, guard, pos):
 # sync.Pool: Get returns New() (fresh) or, in concurrent mode, a previously Put object (see conc layer)
 def m_pool_get(ex, args, guard, pos):
     h = getattr(ex, "pool_get_hook", None)
-    if h is not None:
+    if h is not None and getattr(ex, "conc", None) is not None and ex.conc.recording is not None:
         return h(ex, args, guard, pos)
     recv = args[0]
     ni = _struct_field_index(ex, "sync.Pool", "New")
